@@ -248,17 +248,26 @@ func producers() []func() (produced, error) {
 				return refmodel.Frame{H: refmodel.Hdr{Fin: fin, Op: op, Masked: masked, Mask: [4]byte{9, 9, 1, 1}}, Payload: p}.Wire()
 			}
 			p := bytes.Repeat([]byte{'M'}, n)
-			return append(append(mk(2, false, p[:n/2]), mk(9, true, []byte("ping-payload"))...), mk(0, true, p[n/2:])...)
+			return append(append(append(mk(2, false, p[:n/2]), mk(9, true, []byte("ping-payload"))...), mk(10, true, []byte("second"))...), mk(0, true, p[n/2:])...)
 		}
 		for _, side := range []ws.State{ws.StateServerSide, ws.StateClientSide} {
 			side := side
 			out = append(out, func() (produced, error) {
 				ms, err := wsutil.ReadMessage(bytes.NewReader(mkStream(side)), side, nil)
-				exp := fmt.Sprintf("9:%q 2:%q", "ping-payload", bytes.Repeat([]byte{'M'}, n))
-				return produced{name: fmt.Sprintf("ReadMessage/state%d/len%d", side, n), expect: exp, live: func() string {
+				exp := fmt.Sprintf("9:%q a:%q 2:%q", "ping-payload", "second", bytes.Repeat([]byte{'M'}, n))
+				// the caller keeps the payload slices; the message slice itself may go back in as m[:0]
+				type keptMsg struct {
+					op ws.OpCode
+					p  []byte
+				}
+				var kept []keptMsg
+				for _, m := range ms {
+					kept = append(kept, keptMsg{m.OpCode, m.Payload})
+				}
+				return produced{name: fmt.Sprintf("ReadMessage/state%d/len%d", side, n), expect: exp, msgs: ms, live: func() string {
 					var parts []string
-					for _, m := range ms {
-						parts = append(parts, fmt.Sprintf("%x:%q", byte(m.OpCode), string(m.Payload)))
+					for _, m := range kept {
+						parts = append(parts, fmt.Sprintf("%x:%q", byte(m.op), string(m.p)))
 					}
 					return strings.Join(parts, " ")
 				}}, err
@@ -419,6 +428,13 @@ func recyclers() []recycler {
 					wsutil.ReadServerMessage(bytes.NewReader(wire), nil)
 					wsutil.ReadServerData(env.RW{Reader: bytes.NewReader(wire), Writer: env.NewDst()})
 				}
+			}
+		}},
+		{"caller-appends-to-each-returned-payload", func(p *produced) {
+			// the payloads are the caller's now: appending to one of them (into whatever spare capacity it
+			// came with) is the caller's business and must not reach another one
+			for i := range p.msgs {
+				_ = append(p.msgs[i].Payload, bytes.Repeat([]byte{0xEE}, 64)...)
 			}
 		}},
 		{"ReadMessage-into-recycled-slice", func(p *produced) {
